@@ -430,6 +430,12 @@ func (h *handler) warm() {
 
 func (h *handler) Handle(req map[string]interface{}) interface{} {
 	resp := map[string]interface{}{"i": req["i"]}
+	if h.st == nil {
+		if err := h.Setup(map[string]interface{}{}); err != nil {
+			resp["harness_err"] = err.Error()
+			return resp
+		}
+	}
 	gspec, _ := req["graph"].(map[string]interface{})
 	t0 := time.Now()
 	base, err := h.graph(gspec)
